@@ -166,7 +166,7 @@ def caps(req):
     ref, sha, caps = R(req["ref"]), R(req["sha"]), lst(req["caps"])
     line = P.format_ref_line(ref, sha, caps)
     text, got = P.extract_capabilities(line)
-    ok = (got == caps or (not caps and got in ([], [b""]))) and text == sha + b" " + ref
+    ok = got == caps and text == sha + b" " + ref
     return {"v": "ok" if ok else "mismatch", "got": [hx(text), showl(got)]}
 
 
@@ -179,6 +179,23 @@ def wantcaps(req):
     return {"v": "ok" if ok else "mismatch", "got": [hx(text), showl(got)]}
 
 
-HANDLERS = dict(pkt_line=pkt_line, pkt_seq=pkt_seq, parse_len=parse_len, read_pkt_line=read_pkt_line,
+def _showcaps(t, cs):
+    return (bytes(t).hex() or "_") + " " + (",".join(bytes(c).hex() or "-" for c in cs) or "_")
+
+
+@guard
+def capline(req):
+    """format_ref_line / extract_capabilities / extract_want_line_capabilities, printed as run_C19.ml prints the model's"""
+    w = req["what"]
+    if w == "refline":
+        caps = None if req["caps"] == "NONE" else lst(req["caps"])
+        return {"v": P.format_ref_line(bytes.fromhex(req["ref"]), bytes.fromhex(req["sha"]), caps).hex()}
+    line = bytes.fromhex(req["line"]) if req["line"] != "_" else b""
+    if w == "extract":
+        return {"v": _showcaps(*P.extract_capabilities(line))}
+    return {"v": _showcaps(*P.extract_want_line_capabilities(line))}
+
+
+HANDLERS = dict(capline=capline, pkt_line=pkt_line, pkt_seq=pkt_seq, parse_len=parse_len, read_pkt_line=read_pkt_line,
                 read_pkt_seq=read_pkt_seq, rp=rp, pp_feed=pp_feed, sideband=sideband, demux=demux, bw=bw,
                 caps=caps, wantcaps=wantcaps)
